@@ -33,6 +33,7 @@
   convergence of the QR iteration `misc.eigenvals`, which `is_npd` no longer uses after fixes/C12_3.
 -/
 import ShelxModel.C12
+import ShelxModel.Extracted.C12Src
 import Mathlib.Tactic.Ring
 import Mathlib.Tactic.Linarith
 import Mathlib.Tactic.FieldSimp
@@ -816,5 +817,123 @@ theorem cell_set_old_fails_on :
   have := congrArg V3.x (hst { cellW with a := 9 } ⟨1, 0, 0⟩)
   revert this
   decide +kernel
+
+/-! ## the tie to the traced source (`ShelxModel/Extracted/C12Src.lean`, regenerated on every run)
+
+  `extract/trace_c12.py` runs the repository's own code on symbolic numbers (`extract/symtrace.py`): the helper classes
+  (`Matrix`, `Array`, `OrthogonalMatrix`), the free functions of misc.py/dsrmath.py and — through
+  `Shelxfile.read_string` on a file whose numbers are placeholders — the observables of the parsed `CELL` and `Atom`
+  objects. What CPython computed is written out as straight-line definitions `Src.…`. Each `src_…` theorem says: for ALL
+  real inputs that straight-line program IS the hand-written model function the property theorems above are about. A
+  change of the arithmetic in the repository changes `Src.…` and the theorem fails on the next run (ring normalisation
+  absorbs re-association, reordering and renamed temporaries). What is outside these theorems: the branch events listed
+  in the docstrings of `Src.…` (magnitude tests of the parser on the sample values) and rounding.
+-/
+
+def flatV {K : Type} (v : V3 K) : List K := [v.x, v.y, v.z]
+def flatM {K : Type} (m : M3 K) : List K := [m.r0.x, m.r0.y, m.r0.z, m.r1.x, m.r1.y, m.r1.z, m.r2.x, m.r2.y, m.r2.z]
+def ofRows {K : Type} (m00 m01 m02 m10 m11 m12 m20 m21 m22 : K) : M3 K := ⟨⟨m00, m01, m02⟩, ⟨m10, m11, m12⟩, ⟨m20, m21, m22⟩⟩
+
+/-- unfold the traced definition and the model, then let `ring_nf` decide (it normalises inside `sqrt` too) -/
+syntax "src_tie" "[" Lean.Parser.Tactic.simpLemma,* "]" : tactic
+macro_rules
+  | `(tactic| src_tie [$ls,*]) => `(tactic| (simp only [$ls,*] <;> try ring_nf))
+
+theorem src_volUnitcell (sqrt : ℝ → ℝ) (c : Cell ℝ) :
+    Src.volUnitcell sqrt c.a c.b c.c c.ca c.cb c.cg = volume sqrt c := by
+  src_tie [Src.volUnitcell, volume, volRadicand]
+
+theorem src_cellVolume (sqrt : ℝ → ℝ) (c : Cell ℝ) :
+    Src.cellVolume sqrt c.a c.b c.c c.ca c.cb c.cg = volume sqrt c := by
+  src_tie [Src.cellVolume, volume, volRadicand]
+
+theorem src_orthoM (sqrt : ℝ → ℝ) (c : Cell ℝ) :
+    Src.orthoM sqrt c.a c.b c.c c.ca c.cb c.cg c.sg = flatM (orthoM sqrt c) := by
+  src_tie [Src.orthoM, orthoM, flatM, volume, volRadicand]
+
+theorem src_orthoMulVec (sqrt : ℝ → ℝ) (c : Cell ℝ) (p : V3 ℝ) :
+    Src.orthoMulVec sqrt c.a c.b c.c c.ca c.cb c.cg c.sg p.x p.y p.z = flatV (mulVec (orthoM sqrt c) p) := by
+  src_tie [Src.orthoMulVec, orthoM, flatV, mulVec, dot, volume, volRadicand]
+
+theorem src_atomCart (sqrt : ℝ → ℝ) (c : Cell ℝ) (p : V3 ℝ) :
+    Src.atomCart sqrt c.a c.b c.c c.ca c.cb c.cg c.sg p.x p.y p.z = flatV (mulVec (orthoM sqrt c) p) := by
+  src_tie [Src.atomCart, orthoM, flatV, mulVec, dot, volume, volRadicand]
+
+theorem src_shxFracToCart (sqrt : ℝ → ℝ) (c : Cell ℝ) (p : V3 ℝ) :
+    Src.shxFracToCart sqrt c.a c.b c.c c.ca c.cb c.cg c.sg p.x p.y p.z = flatV (mulVec (orthoM sqrt c) p) := by
+  src_tie [Src.shxFracToCart, orthoM, flatV, mulVec, dot, volume, volRadicand]
+
+theorem src_metricMatrix (sqrt : ℝ → ℝ) (c : Cell ℝ) :
+    Src.metricMatrix sqrt c.a c.b c.c c.ca c.cb c.cg c.sg = flatM (metricCode sqrt c) := by
+  src_tie [Src.metricMatrix, metricCode, mulMM, mulRR, transpose, col0, col1, col2, orthoM, flatM, dot, volume, volRadicand]
+
+theorem src_matDet (m : M3 ℝ) :
+    Src.matDet m.r0.x m.r0.y m.r0.z m.r1.x m.r1.y m.r1.z m.r2.x m.r2.y m.r2.z = det m := by
+  src_tie [Src.matDet, det]
+
+theorem src_matInversed (m : M3 ℝ) :
+    Src.matInversed m.r0.x m.r0.y m.r0.z m.r1.x m.r1.y m.r1.z m.r2.x m.r2.y m.r2.z = flatM (inversed m) := by
+  src_tie [Src.matInversed, inversed, det, flatM]
+
+theorem src_matTransposed (m : M3 ℝ) :
+    Src.matTransposed m.r0.x m.r0.y m.r0.z m.r1.x m.r1.y m.r1.z m.r2.x m.r2.y m.r2.z = flatM (transpose m) := by
+  src_tie [Src.matTransposed, transpose, col0, col1, col2, flatM]
+
+theorem src_matMulStar (m n : M3 ℝ) :
+    Src.matMulStar m.r0.x m.r0.y m.r0.z m.r1.x m.r1.y m.r1.z m.r2.x m.r2.y m.r2.z
+        n.r0.x n.r0.y n.r0.z n.r1.x n.r1.y n.r1.z n.r2.x n.r2.y n.r2.z = flatM (mulRR m n) := by
+  src_tie [Src.matMulStar, mulRR, dot, flatM]
+
+theorem src_matDot (m n : M3 ℝ) :
+    Src.matDot m.r0.x m.r0.y m.r0.z m.r1.x m.r1.y m.r1.z m.r2.x m.r2.y m.r2.z
+        n.r0.x n.r0.y n.r0.z n.r1.x n.r1.y n.r1.z n.r2.x n.r2.y n.r2.z = flatM (mulMM m n) := by
+  src_tie [Src.matDot, mulMM, mulRR, transpose, col0, col1, col2, dot, flatM]
+
+theorem src_matMulVec (m : M3 ℝ) (v : V3 ℝ) :
+    Src.matMulVec m.r0.x m.r0.y m.r0.z m.r1.x m.r1.y m.r1.z m.r2.x m.r2.y m.r2.z v.x v.y v.z = flatV (mulVec m v) := by
+  src_tie [Src.matMulVec, mulVec, dot, flatV]
+
+theorem src_matTrace (m : M3 ℝ) :
+    Src.matTrace m.r0.x m.r0.y m.r0.z m.r1.x m.r1.y m.r1.z m.r2.x m.r2.y m.r2.z = trace m := by
+  src_tie [Src.matTrace, trace]
+
+theorem src_fracToCartMisc (sqrt : ℝ → ℝ) (c : Cell ℝ) (p : V3 ℝ) :
+    Src.fracToCartMisc sqrt c.a c.b c.c c.ca c.cb c.cg c.sb c.sg p.x p.y p.z = flatV (fracToCartMisc sqrt c p) := by
+  src_tie [Src.fracToCartMisc, fracToCartMisc, cosAstar, flatV]
+
+theorem src_cartToFracMisc (sqrt : ℝ → ℝ) (c : Cell ℝ) (q : V3 ℝ) :
+    Src.cartToFracMisc sqrt c.a c.b c.c c.ca c.cb c.cg c.sb c.sg q.x q.y q.z = flatV (cartToFracMisc sqrt c q) := by
+  src_tie [Src.cartToFracMisc, cartToFracMisc, cosAstar, flatV]
+
+theorem src_atomicDistance (sqrt : ℝ → ℝ) (c : Cell ℝ) (p1 p2 : V3 ℝ) :
+    Src.atomicDistance sqrt c.a c.b c.c c.ca c.cb c.cg p1.x p1.y p1.z p2.x p2.y p2.z = atomicDistance sqrt c p1 p2 := by
+  src_tie [Src.atomicDistance, atomicDistance, atomicDistSq, vsub]
+
+theorem src_cellRecip (sqrt : ℝ → ℝ) (c : Cell ℝ) :
+    Src.cellRecip sqrt c.a c.b c.c c.ca c.cb c.cg c.sa c.sb c.sg = flatV (recip sqrt c) := by
+  src_tie [Src.cellRecip, recip, volume, volRadicand, flatV]
+
+theorem src_cellN (sqrt : ℝ → ℝ) (c : Cell ℝ) :
+    Src.cellN sqrt c.a c.b c.c c.ca c.cb c.cg c.sa c.sb c.sg = flatM (nMat sqrt c) := by
+  src_tie [Src.cellN, nMat, diag, recip, volume, volRadicand, flatM]
+
+theorem src_atomUcif (u : U6 ℝ) :
+    Src.atomUcif u.u11 u.u22 u.u33 u.u23 u.u13 u.u12 = flatM (ucif u) := by
+  src_tie [Src.atomUcif, ucif, flatM]
+
+theorem src_atomUstar (sqrt : ℝ → ℝ) (c : Cell ℝ) (u : U6 ℝ) :
+    Src.atomUstar sqrt c.a c.b c.c c.ca c.cb c.cg c.sa c.sb c.sg u.u11 u.u22 u.u33 u.u23 u.u13 u.u12
+      = flatM (ustar (nMat sqrt c) (ucif u)) := by
+  src_tie [Src.atomUstar, ustar, mulMM, mulRR, transpose, col0, col1, col2, dot, nMat, diag, recip, volume, volRadicand, ucif, flatM]
+
+theorem src_atomUcart (sqrt : ℝ → ℝ) (c : Cell ℝ) (u : U6 ℝ) :
+    Src.atomUcart sqrt c.a c.b c.c c.ca c.cb c.cg c.sa c.sb c.sg u.u11 u.u22 u.u33 u.u23 u.u13 u.u12
+      = flatM (ucart (orthoM sqrt c) (nMat sqrt c) (ucif u)) := by
+  src_tie [Src.atomUcart, ucart, ustar, mulMM, mulRR, transpose, col0, col1, col2, dot, orthoM, nMat, diag, recip, volume, volRadicand, ucif, flatM]
+
+theorem src_atomUeq (sqrt : ℝ → ℝ) (c : Cell ℝ) (u : U6 ℝ) :
+    Src.atomUeq sqrt c.a c.b c.c c.ca c.cb c.cg c.sa c.sb c.sg u.u11 u.u22 u.u33 u.u23 u.u13 u.u12
+      = ueqAniso sqrt c u := by
+  src_tie [Src.atomUeq, ueqAniso, trace, ucart, ustar, mulMM, mulRR, transpose, col0, col1, col2, dot, orthoM, nMat, diag, recip, volume, volRadicand, ucif]
 
 end Shelx.C12
